@@ -176,7 +176,7 @@ Proof.
     cbn [print_stmt app]. now rewrite <- app_assoc.
   - intros rest. cbn [GenMM.encode_stmt]. rewrite (structured_ok KindP l _ pf (HL l (or_introl eq_refl)) rest).
     cbn [print_stmt app]. rewrite <- !app_assoc. cbn [app]. rewrite <- !app_assoc. reflexivity.
-  - intros rest. cbn [GenMM.encode_stmt]. rewrite !atoms_app. unfold flat_mapi. rewrite flat_mapi_atoms.
+  - intros rest. cbn [GenMM.encode_stmt]. cbv zeta. rewrite !atoms_app. unfold flat_mapi. rewrite flat_mapi_atoms.
     change (atoms [W "${ "]) with [ALit "${"; ASp]. change (atoms [W "$}"]) with [ALit "$}"].
     rewrite <- !app_assoc. cbn [app group flush lits_only]. change (classify ("${" ++ "")) with KOpen.
     rewrite (group_stmts (GenMM.encode_stmt false) print_stmt ss).
@@ -284,7 +284,7 @@ Lemma gen_deconstruct_provable st : match_axiom st = MNone ->
   GenMM.deconstruct_provable st =
   match deconstruct_provable st with Some (ants, l, ts, pf) => Some (ants, SP l ts pf) | None => None end.
 Proof.
-  intros HM. unfold GenMM.deconstruct_provable. cbv zeta. destruct st; try reflexivity.
+  intros HM. unfold GenMM.deconstruct_provable. cbv zeta. cbn [fst snd]. destruct st; try reflexivity.
   cbn [is_SP_b is_SB_b sb_stmts]. rewrite HM. cbn [maxiom_is_none oassert deconstruct_provable].
   destruct (rev_case ss) as [->|[x [ss' ->]]]; [reflexivity|].
   rewrite rev_app_distr, removelast_last. unfold py_last. rewrite last_last. cbn [rev app].
@@ -387,7 +387,7 @@ Lemma gen_supporting cut sd l ts pf ess :
 Proof.
   unfold GenMM.supporting_database_for_provable, supporting. cbv beta zeta.
   unfold deconstruct_compressed_proof.
-  destruct (proof_labels pf) as [labels|]; [|reflexivity]. cbn [obind]. cbv beta zeta.
+  destruct (proof_labels pf) as [labels|]; [|reflexivity]. cbn [obind fst snd]. cbv beta iota zeta. cbn [fst snd].
   match goal with |- context [py_filter_none (map ?f labels)] =>
     replace (py_filter_none (map f labels)) with (flat_map (sugar_of cut) labels)
       by (symmetry; rewrite pfn_map; apply flat_map_ext; solve_sugar cut) end.
@@ -488,16 +488,16 @@ Proof.
     destruct (match_axiom (SP l ts pf)) as [| |k] eqn:EM; [reflexivity| |reflexivity].
     rewrite (gen_deconstruct_provable _ EM).
     destruct (deconstruct_provable (SP l ts pf)) as [[[[ants l0] ts0] pf0]|]; [|reflexivity].
-    cbn [obind st_label st_terms]. rewrite ?gen_construct_axiom. cbn [st_label st_terms].
-    destruct (mem l0 incl_ && negb (mem l0 excl_)); [|reflexivity].
-    rewrite Hsup. destruct (supporting sguards_fixed cut [] sd l0 ts0 pf0 ants); reflexivity.
+    cbn [obind st_label st_terms fst snd]. rewrite ?gen_construct_axiom. cbn [st_label st_terms fst snd].
+    destruct (mem l0 incl_), (mem l0 excl_); cbn [andb orb negb]; try reflexivity;
+      rewrite Hsup; destruct (supporting sguards_fixed cut [] sd l0 ts0 pf0 ants); reflexivity.
   - cbn [is_SC_b is_SV_b is_SD_b is_SF_b is_SE_b is_SP_b is_SB_b orb].
     destruct (match_axiom (SB ss)) as [| |k] eqn:EM; [reflexivity| |reflexivity].
     rewrite (gen_deconstruct_provable _ EM).
     destruct (deconstruct_provable (SB ss)) as [[[[ants l0] ts0] pf0]|]; [|reflexivity].
-    cbn [obind st_label st_terms]. rewrite ?gen_construct_axiom. cbn [st_label st_terms].
-    destruct (mem l0 incl_ && negb (mem l0 excl_)); [|reflexivity].
-    rewrite Hsup. destruct (supporting sguards_fixed cut [] sd l0 ts0 pf0 ants); reflexivity.
+    cbn [obind st_label st_terms fst snd]. rewrite ?gen_construct_axiom. cbn [st_label st_terms fst snd].
+    destruct (mem l0 incl_), (mem l0 excl_); cbn [andb orb negb]; try reflexivity;
+      rewrite Hsup; destruct (supporting sguards_fixed cut [] sd l0 ts0 pf0 ants); reflexivity.
 Qed.
 
 (* ================================================================== labels of a slice come from the database *)
